@@ -155,7 +155,7 @@ class C08(Check):
     }
     shrink_lists: list[str] = []
     quick_runs = 9000
-    thorough_runs = 400000
+    thorough_runs = 3500000
     chunk = 150
     smoke_runs = 12
 
